@@ -1826,6 +1826,13 @@ class Exec(object):
         raise Unsupported("method %s on %r" % (meth, obj))
 
     def str_method(self, s, meth, args, st, node):
+        if meth == "format" and isinstance(s, str) and "{" in s and \
+                s.replace("{}", "").count("{") == 0 and s.replace("{}", "").count("}") == 0 and "%" not in s:
+            # "a{}b{}".format(x, y) with plain positional fields: the same conversion as "%s"
+            if s.count("{}") != len(args):
+                self.safety(st, node, z3.BoolVal(False), "IndexError", "format_args")
+                raise Unsupported("unreachable")
+            return self.format_percent(s.replace("{}", "%s"), tuple(args), st, node)
         if not is_sym(s) and all(not is_sym(a) for a in args) and meth in (
                 "startswith", "endswith", "find", "rfind", "lower", "upper", "strip", "isdigit", "split", "join"):
             return getattr(s, meth)(*args)
